@@ -252,9 +252,11 @@ def check_invs(E, fr, st, spec: LoopSpec | None, k, kind, idxv):
     if spec.idx and idxv is not None:
         from .engine import V
         binds[spec.idx] = V(INT, idxv)
+    from .spec import split_tags
     for i, inv in enumerate(spec.inv):
         g = E.sev_bool(inv, st, fr, binds)
-        E.oblige(fr, st, kind, f"loop{k}:{i}", g, info=inv)
+        tags, body = split_tags(inv)
+        E.oblige(fr, st, kind, f"loop{k}:{i}", g, info=body, tags=tags)
 
 
 def assume_invs(E, fr, st, spec, idxv):
